@@ -185,16 +185,21 @@ func scenarios() []scenario {
 		s.Suite = id
 		return u16(id), ok, offers13(w)
 	})
-	add("group13", "real", V13, func(w *hs.WireHello, s *tls.VerifServerScript, _ func(int) int) (string, bool, bool) {
-		// an implemented group the hello sent no key share for (P-521 first): the server fabricates
-		// the client share, so the flight is fully consistent
-		g, ok := firstNotIn([]uint16{uint16(tls.CurveP521), uint16(tls.CurveP384), uint16(tls.CurveP256), uint16(tls.X25519), uint16(tls.X25519MLKEM768)}, w.KeyShareGroups)
-		if !offers13(w) || !ok {
-			return "", false, false
-		}
-		s.Group = tls.CurveID(g)
-		return u16(g), true, true
-	})
+	// an implemented group the hello sent no key share for: the server takes the classical half of a hybrid share when there is
+	// one (a genuine client key), else fabricates the client share; one scenario per group
+	for _, gg := range []struct {
+		n string
+		g uint16
+	}{{"x25519", uint16(tls.X25519)}, {"p256", uint16(tls.CurveP256)}, {"p384", uint16(tls.CurveP384)}, {"p521", uint16(tls.CurveP521)}, {"mlkem", uint16(tls.X25519MLKEM768)}} {
+		gg := gg
+		add("group13", "real-"+gg.n, V13, func(w *hs.WireHello, s *tls.VerifServerScript, _ func(int) int) (string, bool, bool) {
+			if !offers13(w) || hs.ContainsU16(w.KeyShareGroups, gg.g) {
+				return "", false, false
+			}
+			s.Group = tls.CurveID(gg.g)
+			return u16(gg.g), true, true
+		})
+	}
 	add("group13", "grease", V13, func(w *hs.WireHello, s *tls.VerifServerScript, rng func(int) int) (string, bool, bool) {
 		s.Group = tls.CurveID(otherGREASE(append(append([]uint16{}, w.KeyShareGroups...), w.SupportedGroups...), rng))
 		return u16(uint16(s.Group)), true, offers13(w)
@@ -558,6 +563,47 @@ func edited(pr hs.Parrot, what string) client {
 	}}
 }
 
+// keyShareSubset: a predefined parrot's spec with its key_share entries filtered (GREASE entries stay).
+func keyShareSubset(pr hs.Parrot, label string, keep func(g tls.CurveID) bool) client {
+	return client{name: "custom:" + pr.Name + ":" + label, id: tls.HelloCustom, hooks: func() (func(*tls.UConn) error, func(*tls.UConn) error, func() *hs.WireHello) {
+		prepare := func(uc *tls.UConn) error {
+			sp, err := tls.UTLSIdToSpec(pr.ID)
+			if err != nil {
+				return err
+			}
+			for _, e := range sp.Extensions {
+				if ks, ok := e.(*tls.KeyShareExtension); ok {
+					var out []tls.KeyShare
+					for _, k := range ks.KeyShares {
+						if hs.IsGREASE(uint16(k.Group)) || keep(k.Group) {
+							out = append(out, k)
+						}
+					}
+					ks.KeyShares = out
+				}
+			}
+			return uc.ApplyPreset(&sp)
+		}
+		return prepare, nil, func() *hs.WireHello { return nil }
+	}}
+}
+
+func isHybrid(g tls.CurveID) bool { return g == tls.X25519MLKEM768 || g == tls.X25519Kyber768Draft00 }
+
+// customClients: hello shapes no predefined parrot has: the only key share is a hybrid one / the hybrid one is left out.
+func customClients(quick bool) []client {
+	cls := []client{
+		keyShareSubset(must("Chrome_133"), "hybrid-share-only", isHybrid),
+		keyShareSubset(must("Chrome_115_PQ"), "hybrid-share-only", isHybrid),
+		keyShareSubset(must("Chrome_131"), "classical-share-only", func(g tls.CurveID) bool { return !isHybrid(g) }),
+	}
+	if !quick {
+		cls = append(cls, keyShareSubset(must("Chrome_131"), "hybrid-share-only", isHybrid), keyShareSubset(must("Chrome_120_PQ"), "hybrid-share-only", isHybrid),
+			keyShareSubset(must("Firefox_120"), "second-share-only", func(g tls.CurveID) bool { return g == tls.CurveP256 }))
+	}
+	return cls
+}
+
 func must(name string) hs.Parrot {
 	pr, _ := hs.ParrotByName(name)
 	return pr
@@ -570,7 +616,7 @@ func sequenceClients(quick bool) []client {
 		represet(must("Firefox_120"), must("Chrome_58")),
 		represet(must("Firefox_105"), must("Chrome_120")),
 	}
-	bases := []string{"Chrome_120", "Firefox_120"}
+	bases := []string{"Chrome_120", "Firefox_120", "Chrome_133"}
 	if !quick {
 		bases = []string{"Chrome_120", "Firefox_120", "Chrome_133", "Safari_16_0", "Edge_106", "IOS_14", "Firefox_105", "Chrome_100_PSK"}
 		cls = append(cls, represet(must("Edge_106"), must("IOS_14")), represet(must("Chrome_131"), must("Firefox_65")), represet(must("Safari_16_0"), must("Chrome_133")))
@@ -592,6 +638,7 @@ func run(c *vh.Ctx) {
 		clients = append(clients, client{name: pr.Name, id: pr.ID})
 	}
 	clients = append(clients, client{name: "Golang", id: tls.HelloGolang})
+	clients = append(clients, customClients(quick)...)
 	if !quick {
 		// thorough: reproducible randomized fingerprints as well
 		for _, pr := range hs.RandomizedParrots(12, c.Seed) {
@@ -612,7 +659,7 @@ func run(c *vh.Ctx) {
 				continue
 			}
 			// quick tier: every client meets every kind at least in one variant, the variants rotate with the seed
-			if quick && (pi+si+int(c.Seed))%3 != 0 && sc.variant != "real" && sc.kind != "honest13" && sc.kind != "honest12" &&
+			if quick && (pi+si+int(c.Seed))%3 != 0 && !strings.HasPrefix(sc.variant, "real") && sc.kind != "honest13" && sc.kind != "honest12" &&
 				!(afterHRRAlways[cl.name] && strings.HasSuffix(sc.kind, "-afterhrr")) {
 				continue
 			}
